@@ -635,4 +635,7 @@ def main(mod, tier, replay=None):
         print('HARNESS-ERROR: %s' % e)
         return 2
     finally:
+        for q in locals().get('procs', []):
+            if q.is_alive():
+                q.kill()
         shutil.rmtree(rundir, ignore_errors=True)
